@@ -117,6 +117,27 @@ where
         let _ = sg.derivative();
         let _ = sg.abs_diff_eq(&Segment { end: s, poly: q }, 1e-9);
     });
+    // the three evaluation routes on piecewise functions of THIS piece type and of its Log / IntOfLog wrappers
+    let ends = [s.min(x.min(1.0)).min(0.0), 0.5, 0.5, 2.0];
+    let mut ends = ends.to_vec();
+    ends.retain(|e| !e.is_nan());
+    ends.sort_by(|a, b| a.partial_cmp(b).unwrap());
+    let xs = [x, s, 0.5, f64::NAN, f64::INFINITY, -1.0];
+    let pw = Piecewise { segments: ends.iter().map(|&e| Segment { end: e, poly: p }).collect::<Vec<_>>() };
+    match eval3(&pw, &xs) {
+        Outcome::Pass => {}
+        o => return o,
+    }
+    let pl = Piecewise { segments: ends.iter().map(|&e| Segment { end: e, poly: Log(q) }).collect::<Vec<_>>() };
+    match eval3(&pl, &xs) {
+        Outcome::Pass => {}
+        o => return o,
+    }
+    let pi = Piecewise { segments: ends.iter().map(|&e| Segment { end: e, poly: IntOfLog { k: s, poly: p } }).collect::<Vec<_>>() };
+    match eval3(&pi, &xs) {
+        Outcome::Pass => {}
+        o => return o,
+    }
     Outcome::Pass
 }
 
